@@ -237,7 +237,8 @@ def _main_output(run: dict) -> list:
 
 def program_task(args) -> dict:
     """Runs in a worker process: the base run of one program and its variants."""
-    name, src, seed, workdir, nvar, cli_share = args
+    name, src, seed, workdir, nvar, cli_share = args[:6]
+    sweep_cap = args[6] if len(args) > 6 else 8
     import random
     rng = random.Random(seed)
     t = sink.table()
@@ -355,6 +356,20 @@ def program_task(args) -> dict:
         except BaseException as e:  # noqa: BLE001
             var["crash"] = repr(e)[:300]
         res["variants"].append(var)
+    # placement sweep: an ignore on every physical line of the multi-line statements in turn
+    coded = sorted({sink.code_name(tup[6]) for tup in out0 if tup[4] == "e" and tup[6] is not None})
+    for pl in corpus.sweep_lines(name, src, sorted(err_lines), sweep_cap):
+        for tags in ([[]] + ([[rng.choice(coded)]] if coded and rng.random() < 0.5 else [])):
+            src2 = corpus.add_ignores(src, {pl: tags})
+            if src2 is None:
+                continue
+            var = {"kind": "ignore", "annots": {str(pl): tags}, "modes": ["sweep-bare" if not tags else "sweep-coded"],
+                   "flags": base_flags, "inline": [], "src": src2}
+            try:
+                var["run"] = tool(src2, base_flags, [])
+            except BaseException as e:  # noqa: BLE001
+                var["crash"] = repr(e)[:300]
+            res["variants"].append(var)
     return res
 
 
@@ -414,11 +429,67 @@ def key5(t: list):
     return json.dumps(t, sort_keys=True)
 
 
-def oracle_ignore_delta(base: dict, var: dict, annots: dict[int, list[str]]) -> list[dict]:
-    """The property's delta rule on outputs, independent of the model:
-       * a diagnostic of P that is gone in P' was stored with an origin span that contains an annotated line
-         (and, if coded tags were given, carries a listed code or a sub-code of one) — or is a note on the line of
-         such an error;
+def def_lines(src: str) -> dict[int, set[int]]:
+    """line -> the `def` lines (and first decorator lines) of the functions whose *signature* contains that line,
+    from Python's own `ast` (independent of mypy).  This is the only documented place besides the reported
+    extent from which a diagnostic may be silenced: an override error reported on a parameter's line can be
+    ignored on the `def` line (docs/source/common_issues.rst "Add it to the line that generates the error",
+    test-data/unit/check-classes.test testMultiLineMethodOverridingWithIncompatibleTypesIgnorableAtDefinition)."""
+    import ast
+    out: dict[int, set[int]] = {}
+    try:
+        tree = ast.parse(src)
+    except (SyntaxError, ValueError, RecursionError):
+        return out
+    for node in ast.walk(tree):
+        if isinstance(node, (ast.FunctionDef, ast.AsyncFunctionDef)):
+            first = min([node.lineno] + [d.lineno for d in node.decorator_list])
+            sig_end = max([node.lineno] + [getattr(a, "end_lineno", None) or a.lineno
+                                           for a in ast.walk(node.args) if hasattr(a, "lineno")]
+                          + ([node.returns.end_lineno or node.returns.lineno] if node.returns is not None else []))
+            if node.body and node.body[0].lineno - 1 > sig_end:
+                sig_end = node.body[0].lineno - 1          # the line with `) -> T:` / trailing comment lines
+            for l in range(first, sig_end + 1):
+                out.setdefault(l, set()).update({node.lineno, first})
+    return out
+
+
+def allowed_lines(t: list, deflines: dict[int, set[int]]) -> set[int]:
+    """The lines on which a `# type: ignore` may silence the displayed diagnostic `t` — computed from the tool's
+    *output* and the program text only: the reported extent `line..end_line` (the ignore-scope rule of
+    testIgnoreScope* in check-python38.test: any physical line of the reported expression), plus the `def` line
+    for a diagnostic reported inside a function signature.  Never a line outside these."""
+    lo, hi = t[0], max(t[0], t[2])
+    return set(range(lo, hi + 1)) | deflines.get(t[0], set())
+
+
+def oracle_spans(run: dict, src: str) -> list[dict]:
+    """Recorded-stream check: the `origin_span` of every ErrorInfo reported for the program must lie inside the
+    independently computed `allowed_lines` — a widened span is flagged even when no ignore is present."""
+    deflines = def_lines(src)
+    bad = []
+    cur = None
+    mf = run["main_file"]
+    for ev in run["events"]:
+        if ev[0] == "F":
+            cur = ev[1]
+        elif ev[0] == "A" and (ev[2] if ev[2] is not None else cur) == mf:
+            i = ev[1]
+            if i[2] < 1:
+                continue
+            allowed = allowed_lines([i[2], i[3], i[4]], deflines)
+            extra = [l for l in i[11] if l not in allowed]
+            if extra:
+                bad.append({"line": i[2], "end_line": i[4], "origin_span": i[11], "outside": extra,
+                            "code": None if i[8] is None else sink.code_name(i[8][0]), "msg": i[7]})
+    return bad
+
+
+def oracle_ignore_delta(base: dict, var: dict, annots: dict[int, list[str]], src: str = "") -> list[dict]:
+    """The property's delta rule on outputs, independent of the model and of the origin spans the tool computed:
+       * a diagnostic of P that is gone in P' has an annotated line among its `allowed_lines` (reported extent or
+         enclosing `def` line) (and, if coded tags were given, carries a listed code or a sub-code of one) — or is
+         a note on the line of such an error;
        * a diagnostic that is new in P' sits on an annotated line and is one of the sink's own messages about
          ignores (not covered / unused / without code);
        * the surviving diagnostics keep their relative order.
@@ -439,17 +510,18 @@ def oracle_ignore_delta(base: dict, var: dict, annots: dict[int, list[str]]) -> 
                 if i[10]:
                     once.add(i[7])
     codes_at = stored_codes(base)
+    deflines = def_lines(src)
     gone = [t for t, k in zip(out0, k0) if k not in s1]
     removed_err_lines = set()
     for t in gone:
         if t[5][0] == "u":
-            hit = [l for sp in spans.get((t[0], t[1], t[4], t[5][1]), []) for l in sp if l in annots]
+            hit = sorted(l for l in allowed_lines(t, deflines) if l in annots)
         else:
             hit = [t[0]] if t[0] in annots else []
         is_once = t[5][0] == "sl" or (t[5][0] == "u" and t[5][1] in once)
         if not hit:
             probs.append({"kind": "unrelated-removed", "tuple": t, "only_once": is_once,
-                          "text": "diagnostic %s disappeared but no annotated line is in its origin span" % json.dumps(t)})
+                          "text": "diagnostic %s disappeared although no added ignore is on a line from which it may be silenced (lines %s)" % (json.dumps(t), sorted(allowed_lines(t, deflines)))})
             continue
         ok = False
         for l in hit:
@@ -528,12 +600,12 @@ def real_runs(ctx: Ctx) -> None:
     cases = corpus.corpus_cases(ctx.rng)
     ncorp = ctx.pick(170, len(cases))
     ntext = ctx.pick(40, 300)
-    progs = cases[:ncorp] + corpus.gen_text_programs(ctx.rng, ntext)
+    progs = cases[:ncorp] + corpus.gen_text_programs(ctx.rng, ntext) + corpus.gen_multiline_programs(ctx.rng, ctx.pick(28, 280))
     nvar = ctx.pick(4, 6)
     nproc = 6
     tasks = []
     for i, (name, src) in enumerate(progs):
-        tasks.append((name, src, ctx.rng.getrandbits(48), os.path.join(ctx.tmp, "w%d" % (i % nproc)), nvar, ctx.pick(0.04, 0.15)))
+        tasks.append((name, src, ctx.rng.getrandbits(48), os.path.join(ctx.tmp, "w%d" % (i % nproc)), nvar, ctx.pick(0.04, 0.15), ctx.pick(6, 10)))
     # one worker lane per scratch directory (its own incremental caches); every lane runs its programs in
     # separate worker processes (harness/c13/worker.py) that are restarted when one dies
     lanes = [[t for t in tasks if t[3].endswith("w%d" % k)] for k in range(nproc)]
@@ -635,7 +707,8 @@ def judge_runs(ctx: Ctx, results: list[dict]) -> None:
             continue
         base = r["base"]
         ctx.dist("program_runs", "judged")
-        ctx.dist("program_kind", "generated-text" if r["name"].startswith("gen-text") else "corpus check-*.test")
+        ctx.dist("program_kind", "generated-text" if r["name"].startswith("gen-text") else
+                 "generated-multiline" if r["name"].startswith("gen-ml") else "corpus check-*.test")
         if base["unsupported"]:
             ctx.dist("program_runs", "unsupported option (not judged)")
             continue
@@ -644,6 +717,14 @@ def judge_runs(ctx: Ctx, results: list[dict]) -> None:
                 for vi, v in enumerate(r["variants"]) if "run" in v]
         replay_ok: dict = {}
         ctx.dist("recorded_stream_vs_Quiet", quiet_status(base["events"]))
+        wide = oracle_spans(base, r["src"]) if base["main_file"] is not None else []
+        ctx.count("origin_spans_checked", sum(1 for e in base["events"] if e[0] == "A"))
+        if wide:
+            report_capped(ctx, {"class": "origin-span-too-wide", "code": wide[0]["code"]},
+                          "an error of %s reported on line %d (extent %d..%d) can be silenced from line(s) %s, which are neither in "
+                          "its reported extent nor the enclosing `def` line (origin_span %s)"
+                          % (r["name"], wide[0]["line"], wide[0]["line"], wide[0]["end_line"], wide[0]["outside"], wide[0]["origin_span"]),
+                          {"kind": "program", "name": r["name"], "src": r["src"], "flags": r["flags"], "wide_spans": wide[:5]})
         for tag, vi, run, src, flags in runs:
             # -------- tie (c): recorded stream through the model = the build's file_messages
             mobs = [sink.canon_model_obs(o) for o in model[("replay", ri, vi)]]
@@ -701,7 +782,7 @@ def judge_runs(ctx: Ctx, results: list[dict]) -> None:
                 nexp += 1
                 exp = [sink.canon_model_obs(o) for o in model[("expect", ri, vi)]]
                 exp_main = _last_main(exp, base)
-                probs = oracle_ignore_delta(base, v, annots)
+                probs = oracle_ignore_delta(base, v, annots, r["src"])
                 ctx.case(("meta", r["name"], v["annots"]))
                 if probs:
                     report_capped(ctx, {"class": "ignore-not-exact", "detail": classify_delta(probs, {**base["texts"], **run["texts"]})},
